@@ -374,6 +374,13 @@ func (rv *resolver) strd(e ast.Expr, depth int) string {
 	}
 	switch v := ast.Unparen(e).(type) {
 	case *ast.Ident:
+		// an unexported constant of the logger's own package reads as its value ("logs", 8)
+		if c, ok := rv.info.ObjectOf(v).(*types.Const); ok && !c.Exported() && c.Pkg() != nil && rv.fi != nil && c.Pkg() == rv.fi.Obj.Pkg() {
+			switch c.Val().Kind() {
+			case constant.String, constant.Int:
+				return c.Val().ExactString()
+			}
+		}
 		if obj, ok := rv.info.ObjectOf(v).(*types.Var); ok && !obj.IsField() && obj.Parent() != nil && obj.Pkg() != nil && obj.Parent() != obj.Pkg().Scope() {
 			if d := rv.def(obj); d != nil {
 				return "(" + rv.strd(d, depth+1) + ")"
